@@ -2,7 +2,7 @@
 anchor resolution (by declaration, never by position), CFG/dominance queries, single-definition
 origin tracking, register provenance, may-emit closure."""
 from .facts import (Facts, AnalysisBroken, walk_expr, walk_all_exprs, walk_stmts, show, strip_casts,
-                    strip_copies, member_path, stmt_children)
+                    strip_copies, strip_conv, member_path, stmt_children)
 from .cfg import CFG
 
 GEN_UNIT = 'Compiler/src/gen.cpp'
@@ -144,6 +144,33 @@ class GenModel:
                 continue
             return None
         return None
+
+
+def map_lookup(model, f, e, depth=0):
+    """(map expression, key expression) when e denotes the mapped value of an associative-container lookup:
+    M[key], M.at(key), M.find(key)->second, (*M.find(key)).second, it->second with it = M.find(key)."""
+    e = strip_copies(strip_casts(e)) if e is not None else None
+    if e is None or depth > 6:
+        return None
+    if e.get('k') == 'paren':
+        return map_lookup(model, f, e['e'], depth + 1)
+    if e.get('k') == 'ref' and e.get('dk') == 'var':
+        o = model.origin(f, e)
+        return map_lookup(model, f, o, depth + 1) if o is not e and o is not None and o.get('k') != 'ref' else None
+    if is_call(e, '::operator[]') or is_call(e, '::at'):
+        if e.get('obj') is not None and e.get('args'):
+            return (e['obj'], e['args'][0])
+        return None
+    if e.get('k') == 'member' and e.get('name') == 'second':
+        b = strip_casts(e['base'])
+        while b is not None and (b.get('k') == 'paren' or (b.get('k') == 'un' and b.get('op') == '*') or is_call(b, '::operator*') or is_call(b, '::operator->')):
+            b = strip_casts(b.get('e') or b.get('obj'))
+        if b is not None and b.get('k') == 'ref':
+            b = model.origin(f, b)
+        b = strip_conv(b) if b is not None else None
+        if is_call(b, '::find') and b.get('obj') is not None and b.get('args'):
+            return (b['obj'], b['args'][0])
+    return None
 
 
 def callers_of(model, q):
